@@ -271,3 +271,69 @@ def check_id_split(ctx, F, rule="E-CANON.idsplit"):
            "terminal / inner-node discrimination by id uses an off-by-one comparison: %s" % "; ".join(bad[:3]) if bad else
            "only %d comparisons with TERMINALS found (expected >= 4)" % n)
     return n
+
+
+def check_ptr_split(ctx, F, rule="E-CANON.ptrsplit"):
+    """The pointer-based manager tells terminals from inner nodes by a tag bit (`Edge::is_inner`).  In every function of
+    its manager module that branches on `is_inner()`, the terminal operations (`TerminalManager::drop_edge` /
+    `clone_edge`) are not reachable from the `true` edge and the inner-node operations (`drop_inner`, `release`,
+    `retain`, `clone_inner_unchecked`) not from the `false` edge: a flipped test releases an inner node's reference into
+    the terminal store (and vice versa)."""
+    n = 0
+    TERM = re.compile(r"TerminalManager(<.*>)?>?::(drop_edge|clone_edge)$")
+    INNER = re.compile(r"::(drop_inner|release|retain|clone_inner_unchecked)$")
+    for fid, m in sorted(F.mir.items()):
+        if not fid.startswith("oxidd_manager_pointer::manager::"):
+            continue
+        B = cfg.Body(m)
+        blocks = m["blocks"]
+        tests = [i for i, t in B.calls() if (cfg.callee_name(t) or "").endswith("::is_inner") and not blocks[i]["c"]]
+        if not tests:
+            continue
+        terms = [i for i, t in B.calls() if TERM.search(cfg.callee_name(t) or "") or TERM.search(cfg.callee_decl(t) or "")]
+        inners = [i for i, t in B.calls() if INNER.search(cfg.callee_name(t) or "")]
+        if not terms and not inners:
+            continue
+        for c in tests:
+            t = blocks[c]["t"]
+            dest, nxt = t.get("d"), t.get("t")
+            if not isinstance(dest, int) or nxt is None:
+                continue
+            neg, cur, edges = None, nxt, None
+            for _ in range(3):
+                b = blocks[cur]
+                for st in b["s"]:
+                    rv = st.get("rv") or {}
+                    if rv.get("k") == "un" and rv.get("o") == "Not" and cfg.op_place(rv.get("a", rv.get("op"))) == dest:
+                        neg = st.get("lhs")
+                tt = b["t"]
+                if tt["k"] == "switch":
+                    d = cfg.op_place(tt.get("d"))
+                    zero = [blk for v, blk in tt["t"] if str(v) == "0"]
+                    if d == dest:
+                        edges = ([tt.get("o")], zero, cur)
+                    elif neg is not None and d == neg:
+                        edges = (zero, [tt.get("o")], cur)
+                    break
+                if tt["k"] == "goto" and isinstance(tt.get("t"), int):
+                    cur = tt["t"]
+                else:
+                    break
+            if edges is None:
+                continue
+            true_e, false_e, sw = edges
+            rt, rf = set(), set()
+            for x in true_e:
+                if x is not None:
+                    rt |= B.reachable_from(x, avoid=(sw,))
+            for x in false_e:
+                if x is not None:
+                    rf |= B.reachable_from(x, avoid=(sw,))
+            n += 1
+            bad = [("terminal operation on the `is_inner()` edge", i) for i in terms if i in rt and i not in rf] + \
+                  [("inner-node operation on the `!is_inner()` edge", i) for i in inners if i in rf and i not in rt]
+            ctx.ob(rule, "%s:%s" % (rule, re.sub(r"<.*?>", "", F.nice(fid))[-70:]), not bad,
+                   "%s (%s): %s" % (F.nice(fid), F.where(fid), "terminal and inner-node operations on the matching edges of is_inner()"
+                                    if not bad else "; ".join(sorted({b[0] for b in bad})) +
+                                    ": a reference is released / retained in the wrong store"))
+    return n
